@@ -33,8 +33,7 @@ func init() {
 		if x.Len != y.Len {
 			return m.tt.F
 		}
-		_, eq := m.lexCompare(m.sliceTerms(x), m.sliceTerms(y))
-		return eq
+		return m.bytesEq(m.sliceTerms(x), m.sliceTerms(y))
 	}
 	I["internal/bytealg.Equal"] = I["bytes.Equal"]
 	I["internal/bytealg.Compare"] = I["bytes.Compare"]
@@ -43,8 +42,7 @@ func init() {
 		if x.Len < y.Len {
 			return m.tt.F
 		}
-		_, eq := m.lexCompare(m.sliceTerms(x)[:y.Len], m.sliceTerms(y))
-		return eq
+		return m.bytesEq(m.sliceTerms(x)[:y.Len], m.sliceTerms(y))
 	}
 	I["internal/bytealg.IndexByte"] = func(m *Machine, fn *ssa.Function, a []Value) Value {
 		x := m.sliceTerms(a[0].(SliceVal))
@@ -549,9 +547,7 @@ func (m *Machine) hashBytes(s SliceVal) SliceVal {
 	tt := m.tt
 	if b, ok := m.sliceConcreteBytes(s); ok {
 		h := sha256.Sum256(b)
-		if len(m.path.hashApps) > 0 {
-			m.recordHash(m.sliceTerms(s), tt.BigConst(h[:]))
-		}
+		m.recordHash(m.sliceTerms(s), tt.BigConst(h[:]))
 		return m.mkBytes(h[:])
 	}
 	in := m.sliceTerms(s)
@@ -565,27 +561,122 @@ func (m *Machine) hashBytes(s SliceVal) SliceVal {
 }
 
 func (m *Machine) recordHash(in []*Term, out *Term) {
-	tt := m.tt
 	p := m.path
 	for _, h := range p.hashApps {
 		if h.out == out {
 			return
 		}
 	}
-	for _, h := range p.hashApps {
-		if h.out.IsConst() && out.IsConst() {
-			continue
-		}
-		if len(h.in) != len(in) {
-			m.addFact(tt.Not(tt.Eq(h.out, out)))
-			continue
-		}
-		if len(in) == 0 {
-			continue
-		}
-		m.addFact(tt.Implies(tt.Eq(h.out, out), tt.Eq(tt.Concat(h.in...), tt.Concat(in...))))
-	}
 	p.hashApps = append(p.hashApps, hashApp{in: in, out: out})
+}
+
+// hashRun recognises, at position i of a byte vector, the 32 (or at least min) leading bytes of a hash
+// value: either the extracts of one uninterpreted H_n application or the constant output of a
+// concretely computed hash recorded on this path. Returns the preimage bytes.
+func (m *Machine) hashRun(ts []*Term, i, min int) ([]*Term, int, bool) {
+	if i >= len(ts) {
+		return nil, 0, false
+	}
+	t0 := ts[i]
+	if t0.Op == "extract:255:248" && t0.Args[0].Op == "uf" && strings.HasPrefix(t0.Args[0].Name, "H_") {
+		uf := t0.Args[0]
+		n := 1
+		for n < 32 && i+n < len(ts) && ts[i+n] == m.tt.Extract(uf, 255-8*n, 248-8*n) {
+			n++
+		}
+		if n >= min {
+			for _, h := range m.path.hashApps {
+				if h.out == uf {
+					return h.in, n, true
+				}
+			}
+		}
+		return nil, 0, false
+	}
+	if t0.IsConst() && len(m.path.hashApps) > 0 {
+		n := 0
+		for n < 32 && i+n < len(ts) && ts[i+n].IsConst() {
+			n++
+		}
+		if n < min {
+			return nil, 0, false
+		}
+		for _, h := range m.path.hashApps {
+			if h.out.Big == nil || len(h.out.Big) != 32 {
+				continue
+			}
+			k := 0
+			for k < n && byte(ts[i+k].C) == h.out.Big[k] {
+				k++
+			}
+			if k >= min && (k == n || k == 32) {
+				return h.in, k, true
+			}
+		}
+	}
+	return nil, 0, false
+}
+
+// bytesEq is bit-wise equality of two equal-length byte vectors. Where both sides carry a hash value
+// at the same position, the collision-freeness of the hash model (DESIGN §3) is asserted as a fact
+// for exactly that pair: equal hash bytes imply equal preimages (and when the preimages are
+// syntactically different, the hash bytes differ). Facts are added per compared pair only.
+func (m *Machine) bytesEq(a, b []*Term) *Term {
+	tt := m.tt
+	if len(a) != len(b) {
+		return tt.F
+	}
+	eq := tt.T
+	for i := 0; i < len(a); {
+		if a[i] == b[i] {
+			i++
+			continue
+		}
+		if !(a[i].IsConst() && b[i].IsConst()) {
+			if pa, na, ok := m.hashRun(a, i, 20); ok {
+				if pb, nb, ok := m.hashRun(b, i, 20); ok && na == nb {
+					run := tt.T
+					for k := 0; k < na; k++ {
+						run = tt.And(run, tt.Eq(a[i+k], b[i+k]))
+					}
+					var pe *Term
+					if len(pa) != len(pb) {
+						pe = tt.F
+					} else if len(pa) == 0 {
+						pe = tt.T
+					} else {
+						pe = tt.T
+						for k := range pa {
+							pe = tt.And(pe, tt.Eq(pa[k], pb[k]))
+							if pe.IsFalse() {
+								break
+							}
+						}
+					}
+					key := [2]int{run.ID, pe.ID}
+					if !m.path.hashFacts[key] {
+						if m.path.hashFacts == nil {
+							m.path.hashFacts = map[[2]int]bool{}
+						}
+						m.path.hashFacts[key] = true
+						m.addFact(tt.Implies(run, pe))
+					}
+					if pe.IsFalse() {
+						return tt.F
+					}
+					eq = tt.And(eq, run)
+					i += na
+					continue
+				}
+			}
+		}
+		eq = tt.And(eq, tt.Eq(a[i], b[i]))
+		if eq.IsFalse() {
+			return eq
+		}
+		i++
+	}
+	return eq
 }
 
 // sortSlice: insertion sort over the real cells using the real less closure (forks on comparisons).
